@@ -41,3 +41,39 @@ pub mod inbound {
 pub mod outbound {
     pub use crate::protocol::outbound::ProtocolViolation;
 }
+
+/// Verification hooks (add-only, `--cfg libp2p_verif`): read-only views of crate-private items.
+#[cfg(libp2p_verif)]
+pub mod verif {
+    use libp2p_core::Multiaddr;
+
+    /// `behaviour::MAX_NUMBER_OF_UPGRADE_ATTEMPTS`
+    pub const MAX_NUMBER_OF_UPGRADE_ATTEMPTS: u8 = crate::behaviour::MAX_NUMBER_OF_UPGRADE_ATTEMPTS;
+
+    /// What a relayed handler reported to the behaviour.
+    #[derive(Debug, Clone)]
+    pub enum HandlerEventView {
+        InboundConnectNegotiated(Vec<Multiaddr>),
+        OutboundConnectNegotiated(Vec<Multiaddr>),
+        InboundConnectFailed(String),
+        OutboundConnectFailed(String),
+    }
+
+    pub fn handler_event_view(ev: &crate::handler::relayed::Event) -> HandlerEventView {
+        use crate::handler::relayed::Event;
+        match ev {
+            Event::InboundConnectNegotiated { remote_addrs } => {
+                HandlerEventView::InboundConnectNegotiated(remote_addrs.clone())
+            }
+            Event::OutboundConnectNegotiated { remote_addrs } => {
+                HandlerEventView::OutboundConnectNegotiated(remote_addrs.clone())
+            }
+            Event::InboundConnectFailed { error } => {
+                HandlerEventView::InboundConnectFailed(format!("{error:?}"))
+            }
+            Event::OutboundConnectFailed { error } => {
+                HandlerEventView::OutboundConnectFailed(format!("{error:?}"))
+            }
+        }
+    }
+}
